@@ -3,6 +3,7 @@ import Pyunicorn.Model.Recurrence
 import Pyunicorn.Model.RecurrenceObjects
 import Pyunicorn.Model.RecurrenceRqa
 import Pyunicorn.Model.RecurrenceStruct
+import Pyunicorn.Model.RecurrenceAdaptiveObj
 /-! Line-protocol driver for C07: one request per line on stdin, one answer per line.
 
 values: rationals `p/q`, `nan`; matrices rows separated by `;`; empty = `-`;
@@ -145,6 +146,29 @@ def answer (toks : List String) : String :=
     | none => outside
     | some S => showRes showNet ((plotX (metric? m) false S (emb? e) sp ord).bind fun p =>
         .ok (networkOf p (rnStrideOf (setter == "1") sp p.N)))
+  | ["rpx", m, mv, norm, e, sp, ord, sn, ts] =>
+    -- round 5c: adaptive plot at the object level (normalize, embedding, `missing_values`)
+    -- with the neighbour table NumPy produced (`Model/RecurrenceAdaptiveObj.lean`)
+    match sp.splitOn ":" with
+    | ["a", k] =>
+      if !adaptiveTableOK (metric? m) (vMat ts) (norm == "1") (mv == "1") (emb? e) (natMat sn) then
+        "not-an-argsort"
+      else match adaptiveObjPlot (metric? m) (vMat ts) (norm == "1") (mv == "1") (emb? e) k.toNat!
+          (if ord == "-" then none else some (nats ord)) (natMat sn) with
+        | none => outside
+        | some r => showRes showPlot r
+    | _ => "bad-request"
+  | ["rnx", setter, m, mv, norm, e, sp, ord, sn, ts] =>
+    -- round 5c: the same for `RecurrenceNetwork` (constructor `0` / setter `1`)
+    match sp.splitOn ":" with
+    | ["a", k] =>
+      if !adaptiveTableOK (metric? m) (vMat ts) (norm == "1") (mv == "1") (emb? e) (natMat sn) then
+        "not-an-argsort"
+      else match adaptiveObjNet (setter == "1") (metric? m) (vMat ts) (norm == "1") (mv == "1")
+          (emb? e) k.toNat! (if ord == "-" then none else some (nats ord)) (natMat sn) with
+        | none => outside
+        | some r => showRes showNet r
+    | _ => "bad-request"
   | ["crpx", m, norm, e, sp, x, y] =>
     match storedSeries (vMat x) (norm == "1"), storedSeries (vMat y) (norm == "1") with
     | some X, some Y =>
